@@ -26,7 +26,7 @@ def shift_value(v, field=None):
     if t == "str":
         return {"t": "str", "v": [PREFIX] + list(v["v"])}
     if t == "list":
-        if v["v"] and v["v"][0]["t"] == "obj" or field == "refs":
+        if v["v"] and v["v"][0]["t"] == "obj" or field in ("refs", "pairs"):
             return copy.deepcopy(v)
         return {"t": "list", "v": [{"t": "int", "v": SENTINEL}] + [shift_value(x) for x in v["v"]]}
     if t == "tuple":
